@@ -644,6 +644,8 @@ def execute(program, ctx):
     replay = {"cfg": dict(cfg, strategy="replay", sparams={}), "ops": [list(s) for s in sched.switches]}
     ctx.replay_program = replay
 
+    if sched.harness_error:
+        raise core.HarnessError(f"{tgt}: exception inside the scheduler's trace function: {sched.harness_error}")
     if sched.deadlock:
         ctx.fail("C19", "deadlock", f"{tgt}: all live threads blocked: {sched.deadlock}", target=kind)
     if not finished:
